@@ -16,11 +16,11 @@ def run(ctx):
     import digital_rf
 
     with quiet_stderr():
-        s1, r1 = cc.e2(ctx, digital_rf, ctx.pick(40, 1200), ctx.pick(14, 18))
+        s1, r1 = cc.e2(ctx, digital_rf, ctx.pick(40, 700), ctx.pick(14, 18))
         kw = dict(bad_rate=0.03, empty_rate=0.0, observe_pairs=14, nvec=2)
-        s2, _ = cc.e3(ctx, digital_rf, ctx.pick(30, 1200), **kw)
-        s3, _ = cc.e3(ctx, digital_rf, ctx.pick(40, 1500), nd=2, nsessions=4, **kw)
-        s4 = cc.refusal_histories(ctx, digital_rf, ctx.pick(16, 400))
+        s2, _ = cc.e3(ctx, digital_rf, ctx.pick(30, 600), **kw)
+        s3, _ = cc.e3(ctx, digital_rf, ctx.pick(40, 700), nd=2, nsessions=4, **kw)
+        s4 = cc.refusal_histories(ctx, digital_rf, ctx.pick(16, 200))
         ctx.extra["refusal_then_continue_histories"] = len(s4)
     scen = s1 + s2 + s3 + s4
     cc.account(ctx, scen, len(s1), WHAT)
